@@ -1,8 +1,8 @@
 #!/usr/bin/env python3
 """C24 -- multipart uploads bind files exactly as mapped and respect limits.
-M: Upload.tla -- a streaming reader (one action per part, early rejection at the limits) conforms to the
+M: Upload.tla / MC_Upload.tla -- a streaming reader (one action per part, early rejection at the limits) conforms to the
    declarative reference (Causes / Optional / Bound) for every case of the bounded domain and every part
-   order; negative control: today's reader (no file count, whole-stream byte budget) violates it.
+   order; negative control: today's reader (whole-stream byte budget) violates it.
 G: every case of the domain (binding family: every assignment of slots to file fields incl. several paths per
    file, lists, nested objects, batch paths; presence family: missing and extra files; limits family: 0..3
    files with sizes L-1/L/L+1 x max_file_size in {none, L} x max_num_files in {none, 1, 2}; structure and
@@ -94,7 +94,7 @@ def body(c):
         for x in r["obs"]:
             if x["out"]["k"] != devpred:
                 c.drift("case %s: the model of today's reader predicts %s, observed %s" % (r["id"], devpred, x["out"]["k"]))
-    for fam in ("bind", "presence", "limits", "struct", "badpath"):
+    for fam in ("bind", "presence", "limits", "dup", "struct", "badpath"):
         if fams.get(fam, 0) == 0:
             raise vlib.ToolError("vacuity: family %s is empty" % fam)
     if not expects.get("ok") or not expects.get("error") or multi == 0 or batchpaths == 0:
@@ -108,7 +108,8 @@ def body(c):
                      "(several paths per file, empty path lists) x rotations of the canonical and reversed part order; (presence) "
                      "every subset of mapped files missing x an unmapped extra file; (limits) 0..%d files with sizes in {1, L-1, L, "
                      "L+1}, L=%d, x max_file_size in {none, L} x max_num_files in {none, 1, 2} x {no, small, oversized} unmapped "
-                     "extra file x 2 orders; (struct) operations / map / file parts missing, map not JSON; (badpath) paths that do "
+                     "extra file x 2 orders; (dup) the same file field name in 2 or 3 file parts of different sizes, alone and with other entries' files missing "
+                     "(which same-named part is bound is free; a duplicate never replaces a missing file); (struct) operations / map / file parts missing, map not JSON; (badpath) paths that do "
                      "not exist. non-trivial = at least one file part or map entry or a structural defect; distinct by case" % (gn, gl, L))
     for r in rows[:1] + [r for r in rows if verdicts[r["id"]][0].startswith("known")][:2]:
         c.sample({"fam": r["case"]["fam"], "opts": r["case"]["opts"], "body": [(p["t"], p["name"], p["size"]) for p in r["case"]["body"]],
